@@ -351,6 +351,8 @@ CHECKS["C19"]["rule"] += "; configuration files that are not valid UTF-8, in bot
 CHECKS["C06"]["rule"] += "; bodies of 6 000 statements in two layouts"
 CHECKS["C09"]["rule"] += "; the deep-nesting family under tab widths 8 and 4 (indentations beyond 64 and 128 columns)"
 CHECKS["C10"]["rule"] += "; a wrappable call at 265 levels under tab_width 255 (beyond column 65 535)"
+CHECKS["C11"]["rule"] += ("; the d <= 1 programs and the seeds again with a 2-byte and a 3-byte character appended to every plain identifier "
+                         "and put inside every single-line literal (widths in bytes, the wrapper's own measure)")
 CHECKS["C11"]["rule"] += "; two compound statements with 1 500 (thorough 3 000) long body statements at ten widths"
 CHECKS["C12"]["rule"] += "; a literal that already stands at its target indentation (six blanks) with foreign line ends"
 CHECKS["C15"]["rule"] += "; 32 texts with blank-line runs inside disabled regions and asm blocks, LF / CRLF, every cursor alone"
